@@ -350,8 +350,6 @@ class Interp:
     @staticmethod
     def _inline_predicate(helper: FuncInfo, call: ast.Call) -> ast.AST | None:
         """The return expression of a one-expression helper with its parameters replaced by the call's arguments."""
-        import copy
-
         body = [b for b in helper.node.body if not (isinstance(b, ast.Expr) and isinstance(b.value, ast.Constant))]
         if len(body) != 1 or not isinstance(body[0], ast.Return) or body[0].value is None:
             return None
@@ -373,7 +371,10 @@ class Interp:
             def visit_Name(self, n):  # noqa: N802
                 return bound[n.id] if isinstance(n.ctx, ast.Load) and n.id in bound else n
 
-        return Sub().visit(copy.deepcopy(body[0].value))
+        # a fresh copy without the `_parent` / `_module` links of the tree (a deepcopy would drag the whole module along);
+        # the substituted argument nodes are the caller's own nodes and keep theirs
+        fresh = ast.parse(unparse(body[0].value), mode="eval").body
+        return Sub().visit(fresh)
 
     @staticmethod
     def _inside_catch_all(node: ast.AST) -> bool:
